@@ -17,3 +17,7 @@ package errorhandlers
 //@ func (*redirectErrorHandler).Execute
 //@   props C12 C01
 //@   assert at store Code#1@f5f2c386.1: stored == eh.code
+// "a redirect to the handler's status code with a Location header": what is recorded is classified
+// as a redirect by both error translators - it matches none of the error kinds they test before
+// (httpClass, internal/handler/middleware/http/errorhandler)
+//@   assert at call SetPipelineError#1@adc6bdb1.1: httpClass(callarg1) == 6
